@@ -41,6 +41,12 @@ func findTransactionFolds(content string) []protocol.FoldingRange {
 
 		startLine := uint32(tx.Range.Start.Line - 1)
 		endLine := uint32(tx.Range.End.Line - 1)
+		// The transaction's range ends where the next token starts. When that is the
+		// beginning of a line (the next entry, a blank line, or the end of the text after
+		// a final newline) the transaction's last line is the one before it.
+		if tx.Range.End.Column == 1 && endLine > startLine {
+			endLine--
+		}
 
 		if endLine > startLine {
 			ranges = append(ranges, protocol.FoldingRange{
